@@ -23,7 +23,7 @@ PROPERTY = "C17"
 
 TIERS = {
     "quick": {"runs": 1500, "wall_cap_s": 70, "det_seeds": 16},
-    "thorough": {"runs": 60000, "wall_cap_s": 780, "det_seeds": 128, "det_extra_workers": 4},
+    "thorough": {"runs": 200000, "wall_cap_s": 780, "det_seeds": 128, "det_extra_workers": 4},
 }
 
 RULE = (
